@@ -94,6 +94,8 @@ class Check:
         self.exhaustive = False
         self.vacuous = []
         self.known = [f for f in load_known() if f.get("property") == pid]
+        import threading
+        self._lock = threading.Lock()
         os.makedirs(BUILD, exist_ok=True)
         os.makedirs(EVID, exist_ok=True)
         os.makedirs(REPLAY, exist_ok=True)
@@ -268,7 +270,7 @@ class Check:
         self.states += res["states"]
         self.transitions += res["states"]  # generated states = transitions explored
         self.distinct += res["distinct"]
-        self.models.append({k: res[k] for k in res if k not in ("output",)})
+        self.models.append({k: res[k] for k in res if k not in ("output", "printed")})
         for a in res.get("never_taken", []):
             self.vacuous.append("%s: action %s never taken" % (module, a))
         self.log("TLC %s/%s: %d states, %d distinct, %s, %.1fs" % (
@@ -451,15 +453,16 @@ class Check:
         """Register a property violation observed on the real code. `sig` classifies it for
         known-finding matching."""
         sig = sig or {}
-        for f in self.known:
-            if f.get("status") == "open" and sig_match(f.get("match", {}), sig):
-                self.known_hits.setdefault(f["id"], [0, f])[0] += 1
-                return False
-        n = len(self.violations)
-        p = os.path.join(REPLAY, "%s-%d.json" % (self.pid, n))
+        with self._lock:
+            for f in self.known:
+                if f.get("status") == "open" and sig_match(f.get("match", {}), sig):
+                    self.known_hits.setdefault(f["id"], [0, f])[0] += 1
+                    return False
+            n = len(self.violations)
+            p = os.path.join(REPLAY, "%s-%d.json" % (self.pid, n))
+            self.violations.append((what, p, sig))
         json.dump({"property": self.pid, "what": what, "sig": sig, "data": data, "tier": self.tier,
                    "seed": self.seed}, open(p, "w"), indent=1)
-        self.violations.append((what, p, sig))
         return True
 
     def judge(self, res, what, sigfn=None, stage=None, maxrep=5):
